@@ -39,7 +39,7 @@ ASSUMES = ["POSIX rename is atomic", "other participants are joblib processes (t
 OUTSIDE = ["more than 2 interference actions per run", "non-joblib writers in the cache directory"]
 
 SRC = "def f(a, b=2):\n    # caf\u00e9\n    return ('val', a, b)\n\ndef h(a):\n    return ('h', a)\n"
-WORKLOADS = ["cold", "warm", "shelve", "reduce", "clear", "other_func", "code_change", "twice", "mmap"]
+WORKLOADS = ["cold", "warm", "shelve", "reduce", "clear", "other_func", "code_change", "twice", "mmap", "reduce_age"]
 ACTIONS = ["rm_output", "rm_meta", "rm_code", "rm_entry", "wipe_func", "clear_all", "store_same", "dir_only",
            "output_only", "torn_code_13", "torn_code_half", "empty_code", "same_mkdir", "torn_code_mb", "thread_clear"]
 
@@ -96,11 +96,11 @@ def _pre_state(name):
         memlib.fresh_process()
         ns = memlib.define(fs, "c11mod", SRC)
         mem = memlib.new_memory()
-        if name in ("warm", "reduce", "clear", "other_func", "shelve", "code_change"):
+        if name in ("warm", "reduce", "clear", "other_func", "shelve", "code_change", "reduce_age"):
             g = mem.cache(ns["f"])
             g(1)
             g(2)
-            if name in ("reduce", "clear"):
+            if name in ("reduce", "clear", "reduce_age"):
                 g(3)
     return fs
 
@@ -133,6 +133,9 @@ def _participant(name, fs, clock):
             probs.append("call_and_shelve().get() returned %r" % (v,))
     elif name == "reduce":
         mem.reduce_size(items_limit=1)
+    elif name == "reduce_age":
+        import datetime
+        mem.reduce_size(age_limit=datetime.timedelta(days=1))
     elif name == "clear":
         mem.clear(warn=False)
     elif name == "other_func":
@@ -343,7 +346,7 @@ def obligations(tier, seed):
     J = 1 if tier == "quick" else 2
     for wl in WORKLOADS:
         for ai, act in enumerate(ACTIONS):
-            if tier == "quick" and wl in ("reduce", "clear", "other_func") and act in ("torn_code_half", "empty_code", "dir_only", "rm_code"):
+            if tier == "quick" and wl in ("reduce", "clear", "other_func", "reduce_age") and act in ("torn_code_half", "empty_code", "dir_only", "rm_code"):
                 continue
             obs.append({"name": "rely/%s/%s" % (wl, act), "fn": "ob_rely", "mode": "S",
                         "params": {"workload": wl, "action": ai, "J": J}, "timeout": 600 if tier == "quick" else 3000,
